@@ -815,6 +815,8 @@ def translate(repo):
     """(lean text, failures): the decoder half and the encoder half are translated independently; a half that is
     outside the subset is replaced by a stand-in about which no refinement theorem holds"""
     tree = ast.parse(open(os.path.join(repo, "pyemv", "tlv.py")).read())
+    import pynorm
+    tree = pynorm.normalise_light(tree)           # module constants, chained comparisons, conditional expressions
     failures = {}
     try:
         fns = check_module(tree)
